@@ -167,7 +167,8 @@ impl GrafeoDB {
                 let wal_path = db_path.join("wal");
 
                 // Check if WAL exists and recover if needed
-                if wal_path.exists() {
+                let recovered = wal_path.exists();
+                if recovered {
                     let recovery = WalRecovery::new(&wal_path);
                     let records = recovery.recover()?;
                     Self::apply_wal_records(&store, &records)?;
@@ -193,6 +194,14 @@ impl GrafeoDB {
                     ..WalConfig::default()
                 };
                 let wal_manager = WalManager::with_config(&wal_path, wal_config)?;
+                if recovered {
+                    // Records that recovery found without a commit marker (a crash
+                    // before close) were not replayed; abort them in the log too, so
+                    // that the next commit marker does not resurrect them.
+                    wal_manager.log(&WalRecord::TxAbort {
+                        tx_id: grafeo_common::types::TxId::SYSTEM,
+                    })?;
+                }
                 Some(Arc::new(wal_manager))
             } else {
                 None
